@@ -519,7 +519,9 @@ func (t TypeHandle) HasType(c ast.Constant) bool {
 		e, err := c.StructValues(func(key ast.Constant, val ast.Constant) error {
 			fieldTpe, ok := fieldTpeMap[key]
 			if !ok {
-				return errTypeMismatch
+				// Struct subtyping is structural: a value may carry more
+				// fields than the type mentions.
+				return nil
 			}
 			seen[key] = true
 			if !fieldTpe.HasType(val) {
